@@ -1522,7 +1522,46 @@ var specialFloats = []float64{math.NaN(), math.Copysign(0, -1), 0, math.Inf(-1),
 	0.3, 0.1 + 0.2, 1e300, math.Nextafter(1e300, math.Inf(1)), 5e-324, -5e-324, 1e-10, -1e-10, 1, math.Nextafter(1, 2)}
 
 // cmpSpecial: Less and Equal on every ordered pair of specialFloats reflect < and == of the language.
+// cmpIdentity: Equal on types whose == is identity, not content: two pointers to equal integers are different values,
+// and so are structs, arrays and interface values that hold them.
+func cmpIdentity() error {
+	x, y := 7, 7
+	px, py := &x, &y
+	type holder struct {
+		P *int
+		N int
+	}
+	ca, cb := make(chan int), make(chan int)
+	checks := []struct {
+		what      string
+		got, want bool
+	}{
+		{"Equal(&x, &y) for two variables holding 7", gogu.Equal(px, py), px == py},
+		{"Equal(&x, &x)", gogu.Equal(px, px), true},
+		{"Equal(struct{&x,1}, struct{&y,1})", gogu.Equal(holder{px, 1}, holder{py, 1}), holder{px, 1} == holder{py, 1}},
+		{"Equal(struct{&x,1}, struct{&x,1})", gogu.Equal(holder{px, 1}, holder{px, 1}), true},
+		{"Equal([2]*int{&x,&y}, [2]*int{&y,&x})", gogu.Equal([2]*int{px, py}, [2]*int{py, px}), false},
+		{"Equal[any](&x, &y)", gogu.Equal[any](px, py), false},
+		{"Equal[any](1, int64(1))", gogu.Equal[any](1, int64(1)), false},
+		{"Equal[any](1, 1)", gogu.Equal[any](1, 1), true},
+		{"Equal(two different channels)", gogu.Equal(ca, cb), false},
+		{"Equal(one channel with itself)", gogu.Equal(ca, ca), true},
+	}
+	for _, c := range checks {
+		if c.got != c.want {
+			return fmt.Errorf("%s = %v, but == says %v (Equal is ==: pointers, channels and what holds them compare by identity)", c.what, c.got, c.want)
+		}
+	}
+	if got := gogu.Compare(px, py, func(a, b *int) bool { return a == b }); got != 0 {
+		return fmt.Errorf("Compare(&x, &y, a == b) = %d, want 0 (the comparator says no both ways)", got)
+	}
+	return nil
+}
+
 func cmpSpecial() error {
+	if err := cmpIdentity(); err != nil {
+		return err
+	}
 	for _, a := range specialFloats {
 		for _, b := range specialFloats {
 			if got := gogu.Less(a, b); got != (a < b) {
